@@ -828,9 +828,10 @@ fn fin_step(cx: &mut Ctx, s: &mut Slot, slot: u8, twin: bool) {
     if rr[0].is_err_of(GeneratorError::InputSizeTooLarge) {
         cx.probe("gen.input_too_large");
     }
-    let pure_check: &'static str = if twin { "C12.finalize_pure" } else { "C03.finalize_pure" };
-    if before != after {
-        cx.fail(pure_check, "finalize_changed_state", "Debug state differs before/after finalize*".to_string());
+    // "Finalizing never disturbs subsequent updates" is C03's sentence: judged
+    // in plain mode only (twin-mode runs belong to C12)
+    if !twin && before != after {
+        cx.fail("C03.finalize_pure", "finalize_changed_state", "Debug state differs before/after finalize*".to_string());
     }
     // C03: the object fed by the history (without any declaration) vs the reference
     let (subject, subj_res): (&Generator, [Res; 6]) = if twin { (&s.nodecl, fin_all(&s.nodecl)) } else { (&s.g, ra.clone()) };
@@ -1036,7 +1037,7 @@ fn shot_step(cx: &mut Ctx, s: &Slot, slot: u8, kind: &Shot, twin: bool) {
                 Ok(h) => format!("Ok({})", h),
                 Err(e) => format!("Err({})", e),
             };
-            cx.ev_std(format_args!("hash_stream s{} {} reads={} -> {}", slot, abr(&all), rd.trace.calls, txt));
+            cx.ev_std(format_args!("hash_stream s{} {} -> {}", slot, abr(&all), txt));
             cx.probe("shot.stream");
             if rd.trace.chunks.iter().any(|&c| c < rd.trace.max_buf) && rd.trace.chunks.len() > 1 {
                 cx.probe("shot.short_reads");
@@ -1082,7 +1083,7 @@ fn shot_step(cx: &mut Ctx, s: &Slot, slot: u8, kind: &Shot, twin: bool) {
                 Ok(h) => format!("Ok({})", h),
                 Err(e) => format!("Err({})", e),
             };
-            cx.ev_std(format_args!("hash_file s{} {} reads={} -> {}", slot, abr(&all), fr.trace.calls, txt));
+            cx.ev_std(format_args!("hash_file s{} {} -> {}", slot, abr(&all), txt));
             cx.probe("shot.file");
             let same = match (&fr.result, &want) {
                 (Ok(a), Ok(b)) => a.full_eq(b),
